@@ -70,6 +70,10 @@ def func_ast(func):
         loops.sort(key=lambda s: (s.lineno, s.col_offset))
         for i, s in enumerate(loops):
             s._ordinal = i + 1
+        comps = [s for s in ast.walk(node) if isinstance(s, ast.ListComp)]
+        comps.sort(key=lambda s: (s.lineno, s.col_offset))
+        for i, s in enumerate(comps):
+            s._cordinal = i + 1
         _SRC_CACHE[key] = (node, code.co_filename, code.co_firstlineno)
     return _SRC_CACHE[key]
 
@@ -1195,8 +1199,14 @@ class Engine:
         env.qualname = getattr(fr, "qualname", None)
         rec(0, env)
 
+    def comp_env(self, fr):
+        env = Frame(fr.func, {}, fr.glob, fr)
+        env.qualname = getattr(fr, "qualname", None)
+        return env
+
     def ex_ListComp(self, e, fr):
-        spec = self.loop_specs.get((getattr(fr, "qualname", None), "comp@%d" % e.lineno))
+        spec = self.loop_specs.get((getattr(fr, "qualname", None), "comp", getattr(e, "_cordinal", None))) \
+            or self.loop_specs.get((getattr(fr, "qualname", None), "comp@%d" % e.lineno))
         if spec is not None:
             return spec.run_comp(self, e, fr)
         out = []
